@@ -42,6 +42,26 @@ def named_methods(rep, cfg, loc):
                 rep.ob("FWD/%s/%s" % (cfg.name, what), got is mk("gzero"), "%s must denote the identity; got %s" % (what, Tm.show(got, maxdepth=4)), where=cfg.where(p))
 
 
+def curve_config_methods(rep, cfg):
+    """arkworks' twisted-Edwards formulas call back into the crate's TECurveConfig: mul_by_a must be multiplication by COEFF_A"""
+    if cfg.name not in ("A", "R"):
+        return
+    p = cfg.one(rep, "TECurveConfig::mul_by_a", lambda x: x.endswith("TECurveConfig>::mul_by_a") and "Decaf377EdwardsConfig" in x)
+    if p:
+        out = cfg.run(p)
+        N = cfg.norm
+        e = mk("param", cfg.prog.bodies[p]["params"][0].get("name", "elem"))
+        want = mk("mul", mk("felem", "fq", K.A_COEFF % K.Q), e)
+        ok = N.pkey(N.poly(out.value)) == N.pkey(N.poly(want)) and not out.unmodelled
+        rep.ob("FWD/%s/TECurveConfig::mul_by_a" % cfg.name, ok, "mul_by_a(e) is used by arkworks' group formulas and must equal COEFF_A * e = -e; got %s" % Tm.show(out.value, maxdepth=4), where=cfg.where(p))
+    # overrides of the config trait: only the ones read and tabled
+    for im in cfg.prog.impls:
+        if im.get("trait_only", "").endswith("TECurveConfig") and "Decaf377EdwardsConfig" in im["self"]:
+            fns = sorted(it["name"] for it in im["items"] if it["kind"].startswith("Fn"))
+            rep.ob("FWD/%s/TECurveConfig:overrides" % cfg.name, fns == ["is_in_correct_subgroup_assuming_on_curve", "mul_by_a"],
+                   "TECurveConfig overrides %s: mul_by_a (checked) and the constant-true subgroup test (C06: elements only arise from VALID provenance) are the tabled ones" % fns, nontrivial=False)
+
+
 def ideal_rule(rep, cfg):
     """cfg M: add / double / neg formulas"""
     N = cfg.norm
@@ -188,6 +208,7 @@ def run(rep, facts, tier):
                 continue      # base routine: decided by the IDEAL rule
             G.check_fwd(rep, cfg, path, b, tr, sorts, loc, "C04")
         named_methods(rep, cfg, loc)
+        curve_config_methods(rep, cfg)
         if name == "M":
             ideal_rule(rep, cfg)
         c17.curve_constants(rep, facts[name], name)
